@@ -114,7 +114,7 @@ func lexSpec(src string) ([]tok, error) {
 			ts = append(ts, tok{"id", src[i:j]})
 			i = j
 		default:
-			ops := []string{"<==>", "==>", "::", "==", "!=", "<=", ">=", "&&", "||", "++", "<", ">", "+", "-", "*", "/", "%", "!", "(", ")", "[", "]", ".", ",", ":", "{", "}"}
+			ops := []string{"<==>", "==>", "::", "==", "!=", "<=", ">=", "&&", "||", "++", "<", ">", "+", "-", "*", "/", "%", "!", "(", ")", "[", "]", ".", ",", ":", "{", "}", "&"}
 			found := false
 			for _, o := range ops {
 				if strings.HasPrefix(src[i:], o) {
@@ -313,7 +313,7 @@ func (p *sparser) mul() *SExpr {
 }
 
 func (p *sparser) unary() *SExpr {
-	if p.isOp("!") || p.isOp("-") || p.isOp("*") {
+	if p.isOp("!") || p.isOp("-") || p.isOp("*") || p.isOp("&") {
 		o := p.next().s
 		x := p.unary()
 		return &SExpr{Op: "un", Name: o, Args: []*SExpr{x}}
@@ -373,7 +373,7 @@ func (p *sparser) postfix() *SExpr {
 			p.p++
 			args := []*SExpr{}
 			for !p.isOp(")") {
-				if (name == "ifaceref" && len(args) == 1) || (name == "cell" && len(args) == 0) {
+				if (name == "ifaceref" && len(args) == 1) || ((name == "cell" || name == "allmaps") && len(args) == 0) {
 					args = append(args, &SExpr{Op: "ident", Name: p.typeText()})
 					continue
 				}
@@ -429,6 +429,7 @@ type Clause struct {
 type LoopSpec struct {
 	Selector   string
 	Invariants []*Clause
+	Steps      []*Clause // two-state per-iteration obligations (old_iter = state at the head of the iteration; $exit = the path leaves the loop)
 	Decreases  *Clause
 	Modifies   []*SExpr
 	HasMod     bool
@@ -550,7 +551,7 @@ func parseModifies(rest, where string) ([]*SExpr, error) {
 }
 
 var specKeywords = map[string]bool{"func": true, "props": true, "requires": true, "ensures": true, "modifies": true,
-	"loop": true, "invariant": true, "decreases": true, "spec": true, "axiom": true, "lemma": true, "trusted": true,
+	"loop": true, "invariant": true, "decreases": true, "step": true, "spec": true, "axiom": true, "lemma": true, "trusted": true,
 	"pure": true, "end": true, "allocates": true, "maypanic": true}
 
 // parseSpecFile reads one verif_contracts.go file.
@@ -602,7 +603,18 @@ func parseSpecFile(path, pkg string) (*SpecFile, error) {
 		}
 		switch kw {
 		case "func":
-			curF = &FuncSpec{Name: rest, Pkg: pkg, Where: l.where}
+			var ftp []string
+			if strings.HasPrefix(rest, "type ") {
+				if k := strings.Index(rest, "("); k > 0 {
+					for _, pn := range strings.Split(strings.TrimSuffix(strings.TrimSpace(rest[k+1:]), ")"), ",") {
+						if pn = strings.TrimSpace(pn); pn != "" {
+							ftp = append(ftp, pn)
+						}
+					}
+					rest = strings.TrimSpace(rest[:k])
+				}
+			}
+			curF = &FuncSpec{Name: rest, Pkg: pkg, Where: l.where, ftParams: ftp}
 			curL = nil
 			curLemma = nil
 			if _, dup := sf.Funcs[rest]; dup {
@@ -684,7 +696,7 @@ func parseSpecFile(path, pkg string) (*SpecFile, error) {
 			}
 			curL = &LoopSpec{Selector: rest, Where: l.where}
 			curF.Loops = append(curF.Loops, curL)
-		case "invariant", "decreases":
+		case "invariant", "decreases", "step":
 			if curL == nil {
 				return nil, fmt.Errorf("%s: %s outside loop", l.where, kw)
 			}
@@ -692,9 +704,12 @@ func parseSpecFile(path, pkg string) (*SpecFile, error) {
 			if err != nil {
 				return nil, err
 			}
-			if kw == "invariant" {
+			switch kw {
+			case "invariant":
 				curL.Invariants = append(curL.Invariants, c)
-			} else {
+			case "step":
+				curL.Steps = append(curL.Steps, c)
+			default:
 				curL.Decreases = c
 			}
 		case "spec":
